@@ -252,8 +252,16 @@ def check_commitment(control: bytes, program: bytes, leaf_hash: bytes) -> bool:
     return r is not None and r[0] == program and r[1] == control[0] & 1
 
 
+def bt_as_eval(line: str) -> str:
+    """a `bteval` line as the `eval` line on the same program (same engine call, same oracle table)"""
+    t = line.split(" ")
+    return " ".join(["eval", *t[1:8], "0", t[8] if len(t) > 8 else "deny"])
+
+
 def answer(line: str, query: str, vec=None) -> str:
     t = line.split(" ")
+    if t[0] == "bteval":
+        return " ".join(t[:8]) + " " + answer(bt_as_eval(line), query).split(" ")[-1]
     if t[0] in ("eval", "evalx", "execwit", "execwitx"):
         # EvalScript / ExecuteWitnessScript level: the transaction impl_eval builds (amount 0, prevout script 51, no annex);
         # in tapscript the leaf is the script under evaluation
@@ -574,9 +582,15 @@ def classify_named(ln, io, mo):
         keep = [f for f in flags if f not in drop]
         t2[fi] = ",".join(keep) if keep else "-"
         t2[-1] = t2[-1].split(";")[0]
-        i2, m2 = _impl(t2), resolve_model(" ".join(t2))
-        # agreeing again, or left with a divergence of another known class (two classes can meet in one program)
-        return i2 == m2 or classify_named(" ".join(t2), i2, m2) in KNOWN_CLASSES
+        i2, line2, m2 = _impl(t2), " ".join(t2), ""
+        for _ in range(64):
+            m2 = _driver(line2)
+            if not m2.startswith("need "):
+                break
+            line2 = answer(line2, m2[5:])
+        # agreeing again, or left with a divergence of another known class (two classes can meet in one program); the
+        # nested classification gets the line WITH its oracle answers (it asks the transcription for Core's error name)
+        return i2 == m2 or classify_named(line2, i2, m2) in KNOWN_CLASSES
 
     els = _elements(t)
     if core == "SIG_FINDANDDELETE" and "CONST_SCRIPTCODE" in flags and "found in the script code" not in msg \
@@ -671,32 +685,41 @@ def signed_eval_lines(rng, n):
     btclib's signing primitives over the transaction impl_eval builds, handed in on the initial stack; oracle `ask`"""
     from . import c08_forms as F
     lines, wit = [], []
-    for _ in range(n):
+    # the first programs are fixed: every signature op code once with valid signatures, consensus-neutral flags and weight
+    # to spare, in each signature version it exists in -- so that every SUCCESS path is reached whatever the seed
+    fixed = [("pk", False), ("pk", True), ("pkv", False), ("pkv", True), ("ms", False), ("ms", True), ("msv", False),
+             ("msv", True), ("pkh", False), ("codesep", False), ("tap0", False), ("tap1", False), ("tap2", False), ("tapadd", False)]
+    for j in range(n):
         lt, seq, ver = rng.choice([(0, 0xFFFFFFFF, 1), (0, 0xFFFFFFFE, 2), (10, 5, 2)])
         sp = F.Spend(rng, lt, seq, ver, 0)
         sp.spk = b"\x51"
         fl = rng.choice(["-", "-", "NULLFAIL", "DERSIG", "DERSIG,NULLDUMMY,NULLFAIL", "LOW_S", "MINIMALDATA",
                          "STRICTENC", "WITNESS_PUBKEYTYPE", "CONST_SCRIPTCODE", "DERSIG,LOW_S,STRICTENC,NULLFAIL,NULLDUMMY"])
-        kind = rng.choice(["pk", "pk", "pkh", "ms", "ms", "pkv", "codesep", "notsig", "tap", "tap", "tapadd"])
-        if kind in ("tap", "tapadd"):
+        kind = rng.choice(["pk", "pk", "pkh", "ms", "ms", "msv", "pkv", "codesep", "notsig", "tap", "tap", "tapadd"])
+        fx = j < len(fixed)
+        if fx:
+            kind, fl = fixed[j][0], "NULLFAIL"
+        if kind[:3] == "tap":
             k1, k2 = F.KEYS[0], F.KEYS[1]
-            if kind == "tap":
-                leaf = rng.choice([G.push(F.xonly(k1)) + b"\xac", G.push(F.xonly(k1)) + b"\xad\x51",
-                                   b"\x51\x75\xab" + G.push(F.xonly(k1)) + b"\xac"])
+            if kind != "tapadd":
+                leaves = [G.push(F.xonly(k1)) + b"\xac", G.push(F.xonly(k1)) + b"\xad\x51",
+                          b"\x51\x75\xab" + G.push(F.xonly(k1)) + b"\xac"]
+                leaf = leaves[int(kind[3])] if fx else rng.choice(leaves)
                 pos = 2 if leaf[:1] == b"\x51" and leaf[2:3] == b"\xab" else 0xFFFFFFFF
                 ext = F.tap_leaf(leaf) + b"\x00" + pos.to_bytes(4, "little")
-                st = [sp.schnorr(k1, 1, b"", ext, rng.choice(F.SCHNORR_MUTS))]
+                st = [sp.schnorr(k1, 1, b"", ext, "valid" if fx else rng.choice(F.SCHNORR_MUTS))]
             else:
-                leaf = G.push(F.xonly(k1)) + b"\xac" + G.push(F.xonly(k2)) + b"\xba" + rng.choice([b"\x52", b"\x51"]) + b"\x87"
+                leaf = G.push(F.xonly(k1)) + b"\xac" + G.push(F.xonly(k2)) + b"\xba" + (b"\x52" if fx else rng.choice([b"\x52", b"\x51"])) + b"\x87"
                 ext = F.tap_leaf(leaf) + b"\x00" + (0xFFFFFFFF).to_bytes(4, "little")
-                st = [sp.schnorr(k2, 1, b"", ext, rng.choice(F.SCHNORR_MUTS)), sp.schnorr(k1, 1, b"", ext, rng.choice(F.SCHNORR_MUTS))]
+                st = [sp.schnorr(k2, 1, b"", ext, "valid" if fx else rng.choice(F.SCHNORR_MUTS)),
+                      sp.schnorr(k1, 1, b"", ext, "valid" if fx else rng.choice(F.SCHNORR_MUTS))]
             tfl = rng.choice(["-", "DISCOURAGE_UPGRADABLE_PUBKEYTYPE", "MINIMALDATA", "NULLFAIL"])
-            wit.append(f"execwit tapscript {tfl} {hx(leaf)} {hexlist(st)} {lt} {seq} {ver} {rng.choice([49, 50, 99, 100, 1000])} ask")
+            wit.append(f"execwit tapscript {tfl} {hx(leaf)} {hexlist(st)} {lt} {seq} {ver} {1000 if fx else rng.choice([49, 50, 99, 100, 1000])} ask")
             continue
-        segwit = rng.random() < 0.4
+        segwit = fixed[j][1] if fx else rng.random() < 0.4
         sv = "v0" if segwit else "base"
         q = F.KEYS[0]
-        mut = rng.choice(F.SIG_MUTS)
+        mut = "valid" if fx else rng.choice(F.SIG_MUTS)
         if kind == "pk":
             sc = F.p2pk(q, rng.random() < 0.8)
             st = [sp.ecdsa(q, sc, segwit, mut)]
@@ -715,12 +738,14 @@ def signed_eval_lines(rng, n):
             st = [sp.ecdsa(q, sc if segwit and rng.random() < 0.3 else tail, segwit, mut)]
         else:
             qs = F.KEYS[:3]
-            sc = F.multisig(2, qs)
+            sc = F.multisig(2, qs) if kind == "ms" else F.multisig(2, qs)[:-1] + b"\xaf\x51"
             order = rng.choice([(0, 1), (0, 2), (1, 2), (1, 0)])
             muts = ["valid", mut] if rng.random() < 0.6 else [rng.choice(F.SIG_MUTS), mut]
-            st = [b"" if rng.random() < 0.85 else b"\x01"] + [sp.ecdsa(qs[i], sc, segwit, m) for i, m in zip(order, muts)]
+            if fx:
+                order, muts = (0, 1), ["valid", "valid"]
+            st = [b"" if fx or rng.random() < 0.85 else b"\x01"] + [sp.ecdsa(qs[i], sc, segwit, m) for i, m in zip(order, muts)]
         lines.append(f"eval {sv} {fl} {hx(sc)} {hexlist(st)} {lt} {seq} {ver} 0 ask")
-        if segwit and rng.random() < 0.5:
+        if segwit and (fx or rng.random() < 0.5):
             wit.append(f"execwit v0 {fl} {hx(sc)} {hexlist(st)} {lt} {seq} {ver} 0 ask")
     return lines, wit
 
@@ -773,12 +798,91 @@ def run_eval(ctx, spec):
         w = rng.choice([0, 49, 50, 99, 100, 1000, 100000])
         wit_lines.append(f"execwit tapscript {fl} {hx(sc)} {hexlist(st)} 0 4294967295 1 {w} deny")
     sl, sw = signed_eval_lines(rng, ctx.n(300, 6000))
+    # which signature op codes reach their SUCCESS path on the real engine in these lines: per op code, how the program ended
+    # (`true` = accepted with a true top element, i.e. every signature op code in it answered true / passed its VERIFY)
+    from btclib.script.script import op_code_spans
+    names = {0xAC: "OP_CHECKSIG", 0xAD: "OP_CHECKSIGVERIFY", 0xAE: "OP_CHECKMULTISIG", 0xAF: "OP_CHECKMULTISIGVERIFY", 0xBA: "OP_CHECKSIGADD"}
+    for ln in sl + sw:
+        t = ln.split(" ")
+        io = _impl(t)
+        if t[0] == "eval":
+            top = unhexlist(io.split(" ")[1])[-1:] if io.startswith("ok ") and io != "ok -" else []
+            verdict = "true" if top and any(top[0][:-1]) or (top and top[0] and top[0][-1] not in (0, 0x80)) else ("false" if io.startswith("ok") else "refused")
+        else:
+            verdict = "true" if io == "ok" else "refused"
+        for o in {o for o, _, _ in op_code_spans(unhx(t[3]))} & set(names):
+            ctx.count("signed." + t[0] + "." + t[1] + ".sigops", f"{names[o]}:{verdict}")
     ctx.count("core.eval.oracle", "deny", len(lines))
     ctx.count("core.eval.oracle", "ask (real signatures)", len(sl))
     ctx.count("core.execwit.oracle", "deny", len(wit_lines))
     ctx.count("core.execwit.oracle", "ask (real signatures)", len(sw))
     spec(ctx, "core.eval", lines + sl, classify_eval, nontrivial=lambda ln, io: len(ln.split(" ")[3]) <= 20000)
     spec(ctx, "core.execwit", wit_lines + sw, classify_eval)
+
+
+def bt_signed_lines(rng, n):
+    """legacy / v0 programs with signature op codes and real signatures (p2pk, p2pkh, 2-of-3 multisig and its VERIFY
+    form, CHECKSIGVERIFY, OP_CODESEPARATOR before and between signature op codes, a BOLT3-style HTLC and to_local),
+    for the btclib-shaped model with `op_checksig := sharedChecksig` over the harness-answered checker (oracle `ask`)"""
+    from . import c08_forms as F
+    out = []
+    for _ in range(n):
+        lt, seq, ver = rng.choice([(0, 0xFFFFFFFF, 1), (0, 0xFFFFFFFE, 2), (600000, 5, 2)])
+        sp = F.Spend(rng, lt, seq, ver, 0)
+        sp.spk = b"\x51"
+        fl = rng.choice(["-", "-", "NULLFAIL", "DERSIG", "DERSIG,NULLDUMMY,NULLFAIL", "LOW_S", "MINIMALDATA", "MINIMALIF",
+                         "STRICTENC", "WITNESS_PUBKEYTYPE", "CONST_SCRIPTCODE", "DERSIG,LOW_S,STRICTENC,NULLFAIL,NULLDUMMY",
+                         "CHECKLOCKTIMEVERIFY,CHECKSEQUENCEVERIFY,NULLFAIL"])
+        segwit = rng.random() < 0.4
+        sv = "v0" if segwit else "base"
+        q, q2 = F.KEYS[0], F.KEYS[1]
+        mut = rng.choice(F.SIG_MUTS)
+        kind = rng.choice(["pk", "pkh", "pkv", "ms", "ms", "msv", "codesep", "codesep2", "notsig", "htlc", "tolocal", "ms0"])
+        if kind == "pk":
+            sc = F.p2pk(q, rng.random() < 0.8)
+            st = [sp.ecdsa(q, sc, segwit, mut)]
+        elif kind == "pkh":
+            sc = F.p2pkh(q)
+            st = [sp.ecdsa(q, sc, segwit, mut), F.pub(q)]
+        elif kind == "pkv":
+            sc = G.push(F.pub(q)) + b"\xad\x51"
+            st = [sp.ecdsa(q, sc, segwit, mut)]
+        elif kind == "notsig":
+            sc = G.push(F.pub(q)) + b"\xac\x91"
+            st = [sp.ecdsa(q, sc, segwit, mut)]
+        elif kind == "codesep":
+            tail = F.p2pk(q)
+            sc = b"\x51\x75\xab" + tail
+            st = [sp.ecdsa(q, sc if segwit and rng.random() < 0.3 else tail, segwit, mut)]
+        elif kind == "codesep2":
+            # <sig2> <sig1> | <k1> CHECKSIGVERIFY CODESEPARATOR <k2> CHECKSIG : the two signatures commit to different script codes
+            t2 = G.push(F.pub(q2)) + b"\xac"
+            sc = G.push(F.pub(q)) + b"\xad\xab" + t2
+            st = [sp.ecdsa(q2, t2 if rng.random() < 0.8 else sc, segwit, rng.choice(F.SIG_MUTS)), sp.ecdsa(q, sc, segwit, mut)]
+        elif kind == "htlc":
+            # BOLT3 offered HTLC, the remote-success / timeout arms
+            h = hash160(b"preimage")
+            sc = (b"\x76\xa9" + G.push(hash160(F.pub(q2))) + b"\x87\x63\xac\x67" + G.push(F.pub(q)) + b"\x7c\x82\x01\x20\x87\x63"
+                  + b"\xa9" + G.push(h) + b"\x88\xac\x67\x75\x52\x7c" + G.push(F.pub(q2)) + b"\x52\xae\x68\x68")
+            if rng.random() < 0.5:
+                st = [sp.ecdsa(q, sc, segwit, mut), bytes(rng.randrange(256) for _ in range(32)) if rng.random() < 0.3 else b"preimage".ljust(32, b"\x00")]
+            else:
+                st = [b"", sp.ecdsa(q, sc, segwit, mut), sp.ecdsa(q2, sc, segwit, rng.choice(F.SIG_MUTS)), b""]
+        elif kind == "tolocal":
+            sc = b"\x63" + G.push(F.pub(q2)) + b"\x67\x55\xb2\x75" + G.push(F.pub(q)) + b"\x68\xac"
+            st = [sp.ecdsa(q, sc, segwit, mut), b""] if rng.random() < 0.6 else [sp.ecdsa(q2, sc, segwit, mut), b"\x01"]
+        elif kind == "ms0":
+            sc = rng.choice([b"\x00\x00\xae", b"\x00" + G.push(F.pub(q)) + b"\x51\xae", b"\x4f\x4f\xae", b"\x51\x00\xae",
+                             b"\x00\x00\xaf\x51", b"\x01\x15" + b"\xae"])
+            st = [rng.choice([b"", b"\x01"])] + ([b""] if rng.random() < 0.5 else [])
+        else:
+            qs = F.KEYS[:3]
+            sc = F.multisig(2, qs) if kind == "ms" else F.multisig(2, qs)[:-1] + b"\xaf\x51"
+            order = rng.choice([(0, 1), (0, 2), (1, 2), (1, 0)])
+            muts = ["valid", mut] if rng.random() < 0.6 else [rng.choice(F.SIG_MUTS), mut]
+            st = [b"" if rng.random() < 0.85 else b"\x01"] + [sp.ecdsa(qs[i], sc, segwit, m) for i, m in zip(order, muts)]
+        out.append(f"bteval {sv} {fl} {hx(sc)} {hexlist(st)} {lt} {seq} {ver} ask")
+    return out
 
 
 def run_bt(ctx, bt_stream):
@@ -798,6 +902,18 @@ def run_bt(ctx, bt_stream):
     for k, (sc, lt, seq, ver) in enumerate(G.locktime_programs(rng)):
         lines.append(f"bteval {('base', 'v0')[k % 2]} CHECKLOCKTIMEVERIFY,CHECKSEQUENCEVERIFY {hx(sc)} - {lt} {seq} {ver}")
     bt_stream(ctx, "bt.eval", lines)
+    # the grammar with its signature op codes left in (keys and signatures are random bytes: the failure paths)
+    lines = []
+    for _ in range(ctx.n(200, 6000)):
+        sv = rng.choice(["base", "v0"])
+        st = G.init_stack(rng)
+        sc = G.program(rng, False, [G.N if len(x) <= 4 else G.A for x in st], nosig=False)
+        lines.append(f"bteval {sv} {rng.choice(fsets)} {hx(sc)} {hexlist(st)} 0 4294967295 1 ask")
+    # two policy-flag divergence classes meeting in one program (empty signature, malformed key, STRICTENC and
+    # WITNESS_PUBKEYTYPE together): kept from a thorough run where the nested classification lost its oracle answers
+    lines.append("bteval v0 STRICTENC,WITNESS_PUBKEYTYPE 000051010551ae - 0 4294967295 1 ask")
+    bt_stream(ctx, "bt.eval.sigops", lines)
+    bt_stream(ctx, "bt.eval.signed", bt_signed_lines(rng, ctx.n(300, 4000)))
 
 
 def run_verify(ctx, spec):
